@@ -14,3 +14,22 @@ package iter
 //@ domain not-a-list: !isList(il)
 //@ func (*iter.IterLink).ListIterator
 //@ domain not-a-list: !isList(il)
+
+// C15 / C02: each step of a directory iterator takes exactly the next link of the underlying link
+// iterator and yields that link's own name (through the name transformer, when there is one) as the
+// key and that same link (its hash, for the typed iterator) as the value -- so a key that was
+// yielded is the name of a link of the directory, which is what lookup finds. (2 is schema.Maybe_Value.)
+//@ func (*iter.UnixFSDir__MapItr).Next
+//@ prop C02 C15
+//@ at return assert value-is-the-link-that-was-stepped-over: err == nil ==> v != nil && v.(*iter.IterLink).Substrate == next
+//@ ensures error-yields-nothing: err != nil ==> k == nil && v == nil
+
+//@ func (*iter.UnixFSDir__Itr).Next
+//@ prop C02 C15
+//@ at return assert value-is-the-hash-of-the-link-that-was-stepped-over: v != nil ==> next != nil && v.x == next.Hash.x
+//@ at return assert key-is-that-links-own-name: k != nil && next != nil && next.Name.m == 2 && itr.transformName == nil ==> k.x == next.Name.v.x
+
+//@ func (*iter.UnixFSDir__MapItr).Done
+//@ prop C15
+//@ func (*iter.UnixFSDir__Itr).Done
+//@ prop C15
